@@ -33,6 +33,16 @@ Setup ==
   << [op |-> "NewDoc", out |-> "d1"],
      [op |-> "AddNs", h |-> "d1", p |-> "ex", u |-> A] >>
   \o (IF Mode = "ns" THEN << [op |-> "Bundle", h |-> "d1", id |-> NamePL("ex", <<"b1">>), out |-> "b1"] >> ELSE <<>>)
+  \* mode "conflict": a document that cannot be unified (one activity stated with two start times), with a
+  \* relation stated before the elements it mentions (exporters that unify first have to cope)
+  \o (IF Mode = "conflict"
+      THEN << [op |-> "NewRec", h |-> "d1", k |-> "generation", via |-> "new_record", id |-> <<>>,
+               formals |-> << <<"entity", [t |-> "name", n |-> NamePL("ex", X)]>>, <<"activity", [t |-> "name", n |-> NamePL("ex", Y)]>> >>, extras |-> <<>>],
+              [op |-> "NewRec", h |-> "d1", k |-> "activity", via |-> "new_record", id |-> <<NamePL("ex", Y)>>,
+               formals |-> << <<"startTime", [t |-> "dt", v |-> "t1"]>> >>, extras |-> <<>>],
+              [op |-> "NewRec", h |-> "d1", k |-> "activity", via |-> "new_record", id |-> <<NamePL("ex", Y)>>,
+               formals |-> << <<"startTime", [t |-> "dt", v |-> "t2"]>> >>, extras |-> <<>>] >>
+      ELSE <<>>)
   \* mode "ns2": a document with its own default namespace and TWO bundles (what one bundle declares must
   \* not reach the next one)
   \o (IF Mode = "ns2" THEN << [op |-> "SetDefault", h |-> "d1", u |-> A],
@@ -327,7 +337,7 @@ Build ==
   /\ IF Mode = "shapes"
      THEN \/ (Len(hist) = NSetup /\ \E a \in ShapeActs("d1") : Step(a))
           \/ (Len(hist) > NSetup /\ \E a \in SecondActs : Step(a))
-     ELSE IF Mode = "graph" THEN \E a \in GraphActs : Step(a)
+     ELSE IF Mode \in {"graph", "conflict"} THEN \E a \in GraphActs : Step(a)
      ELSE IF Mode = "ns2" THEN \E a \in Ns2Acts : DefaultOK(a) /\ Step(a)
      ELSE IF Mode = "rdf"
      THEN \/ (Len(hist) = NSetup /\ \E a \in RdfActs("d1") : Step(a))
